@@ -320,6 +320,19 @@ func (e *Env) NewStorage(spec string, opts ...metadatapart.StorageOption) (stora
 	if spec == "named" {
 		return e.NewNamedStorage(NamedDefault, opts...)
 	}
+	s, err := e.NewStorageUnstarted(spec, opts...)
+	if err != nil {
+		return nil, err
+	}
+	if err := s.Start(context.Background()); err != nil {
+		return nil, err
+	}
+	return s, nil
+}
+
+// NewStorageUnstarted builds a metadata-part storage without starting it (for
+// wrappers such as the storage outbox that start their inner storage themselves).
+func (e *Env) NewStorageUnstarted(spec string, opts ...metadatapart.StorageOption) (storage.Storage, error) {
 	ms, err := e.NewMetadataStore()
 	if err != nil {
 		return nil, err
@@ -328,14 +341,7 @@ func (e *Env) NewStorage(spec string, opts ...metadatapart.StorageOption) (stora
 	if err != nil {
 		return nil, err
 	}
-	s, err := metadatapart.NewStorage(e.DB, ms, ps, opts...)
-	if err != nil {
-		return nil, err
-	}
-	if err := s.Start(context.Background()); err != nil {
-		return nil, err
-	}
-	return s, nil
+	return metadatapart.NewStorage(e.DB, ms, ps, opts...)
 }
 
 // NewNamedStorage builds and starts a class-routed storage. Stores are built in
